@@ -394,6 +394,41 @@ def exDecBorrowed : FuncIR :=
 example : checkFunc exDecBorrowed = false := by decide
 theorem not_safe_exDecBorrowed : ¬ Safe exDecBorrowed := replay_refutes (w := []) (by decide)
 
+/-! ### borrow safety and the `GetAttr` side condition -/
+
+/-- `r0 = borrow a.total; r1 = replace_total(a, …); r2 = r0 + r1` — what a borrowed read of an augmented-assignment
+    target across an arbitrary right operand looks like: the call may rebind `a.total` (`clobber 1`), after which the
+    borrowed value is only a dangling pointer.  Variables: 0 a, 1 r0, 2 r1, 3 r2. -/
+def exBorrowAcrossCall : FuncIR :=
+  { nvars := 4, args := [(0, .borrowed)],
+    blocks := #[
+      ⟨[.use 0, .define 1 .borrowed, .use 0, .clobber 1, .define 2 .maybe], .br [⟨[.assumeNull 2], 2⟩, ⟨[.assumeOk 2], 1⟩]⟩,
+      ⟨[.use 1, .use 2, .define 3 .owned, .decref 2 false], .ret (some 3)⟩,
+      ⟨[], .ret none⟩] }
+
+example : checkFunc exBorrowAcrossCall = false := by decide
+theorem not_safe_exBorrowAcrossCall : ¬ Safe exBorrowAcrossCall :=
+  replay_refutes (w := [⟨0, 1, 0⟩]) (by decide)
+
+/-- the same with an owned read of the target (what mypyc emits when the right operand is not borrow friendly) -/
+def exOwnedAcrossCall : FuncIR :=
+  { nvars := 4, args := [(0, .borrowed)],
+    blocks := #[
+      ⟨[.use 0, .define 1 .owned, .use 0, .define 2 .maybe], .br [⟨[.assumeNull 2], 2⟩, ⟨[.assumeOk 2], 1⟩]⟩,
+      ⟨[.use 1, .use 2, .define 3 .owned, .decref 1 false, .decref 2 false], .ret (some 3)⟩,
+      ⟨[.decref 1 false], .ret none⟩] }
+
+example : checkFunc exOwnedAcrossCall = true := by decide
+
+/-- a `GetAttr` without error branch on an attribute that the ClassIR does not guarantee to be set (deletable, or not
+    always initialised): the translator emits `define … maybe`, and handing the value to a call is then stuck -/
+def exGetAttrNoGuarantee : FuncIR :=
+  { nvars := 3, args := [(0, .borrowed)],
+    blocks := #[⟨[.use 0, .define 1 .maybe, .use 1, .define 2 .owned, .decref 1 false], .ret (some 2)⟩] }
+
+example : checkFunc exGetAttrNoGuarantee = false := by decide
+theorem not_safe_exGetAttrNoGuarantee : ¬ Safe exGetAttrNoGuarantee := replay_refutes (w := []) (by decide)
+
 /-! ## the two defects of the current tree, as transcribed from today's final IR -/
 
 /-- **F14** — `close()` of every generated generator class (mypyc/irbuild/generator.py `add_close_to_generator_class`):
